@@ -32,6 +32,7 @@ RULE = (
 ASSUMPTIONS = [
     "same configuration = same constructor arguments; everything else must travel in state_dict() (strict loading)",
     "bitwise equality (torch.equal) of outputs, log-dets and log-probs on 3 rows in eval mode, float32 as constructed",
+    "after the eval-mode comparison both models make one more training-mode call on a new 4-row batch under the same RNG state; its results and the eval-mode results afterwards must again be bit-identical (initialisation flags and 'first batch' markers must have travelled)",
     "vacuity guard: the number of (a,b) pairs where A and B differed before loading is counted and reported",
 ]
 
@@ -102,6 +103,31 @@ def compare(oa, ob):
     return None
 
 
+def continue_training(A, B, call, observe):
+    """after the reload: one more training-mode call on a NEW batch in both models (same RNG state), then evaluation again.
+    State that decides what a training-mode call does (initialisation flags, 'first batch seen' markers) has to travel too,
+    otherwise the reloaded model re-initialises / restarts its statistics and the two functions part ways."""
+    A.train()
+    B.train()
+    res = []
+    for m in (A, B):
+        torch.manual_seed(4242)
+        try:
+            with torch.no_grad():
+                r = call(m)
+            res.append(tuple(t for t in (r if isinstance(r, (tuple, list)) else (r,))))
+        except Exception as e:
+            res.append(("raises", type(e).__name__))
+    A.eval()
+    B.eval()
+    if not same(res[0], res[1]):
+        return "training-mode call", compare({"k": res[0]}, {"k": res[1]})[1]
+    d = compare(observe(A), observe(B))
+    if d:
+        return d[0] + " after one more training-mode call", d[1]
+    return None
+
+
 def transform_case(sname, cfg, hist, seed, res=None):
     s = C.SUBJECTS[sname]
     vio = []
@@ -149,6 +175,13 @@ def transform_case(sname, cfg, hist, seed, res=None):
     if d:
         vio.append({"key": "%s|%s|%s|reloaded model differs (%s)" % (sname, sig, hist, d[0]), "case": {"kind": "transform", "subject": sname, "cfg": cfg, "hist": hist, "seed": seed},
                     "msg": "%s cfg=%s history=%s: after load_state_dict the fresh instance's %s differs from the saved model: %s" % (sname, cfg, hist, d[0], d[1])})
+        return vio, before
+    x2 = torch.tensor(np.stack([base_row(D, dom, seed + 11 + k) for k in range(4)]), dtype=torch.float32).reshape(4, *shape)
+    ctx2 = None if cs is None else torch.stack([pat_tensor(cs, 15 + k, 0.7, dtype=torch.float32) for k in range(4)])
+    d = continue_training(A, B, (lambda m: m(x2, ctx2) if ctx2 is not None else m(x2)), lambda m: observe_transform(m, s, cfg, x, ctx))
+    if d:
+        vio.append({"key": "%s|%s|%s|reloaded model diverges when used further (%s)" % (sname, sig, hist, d[0]), "case": {"kind": "transform", "subject": sname, "cfg": cfg, "hist": hist, "seed": seed},
+                    "msg": "%s cfg=%s history=%s: the reloaded instance agreed in evaluation mode, but %s differs from the saved model's: %s" % (sname, cfg, hist, d[0], d[1])})
     return vio, before
 
 
@@ -210,6 +243,13 @@ def dist_case(dname, cfg, hist, seed, res=None):
     if dd:
         vio.append({"key": "%s|%s|%s|reloaded model differs (%s)" % (dname, sig, hist, dd[0]), "case": {"kind": "dist", "subject": dname, "cfg": cfg, "hist": hist, "seed": seed},
                     "msg": "%s cfg=%s history=%s: after load_state_dict %s differs: %s" % (dname, cfg, hist, dd[0], dd[1])})
+        return vio, before
+    x2 = d.points(cfg, 4, seed + 9, dtype=torch.float32)
+    ctx2 = d.contexts(cfg, 4, seed + 9, dtype=torch.float32)
+    dd = continue_training(A, B, lambda m: m.log_prob(x2, context=ctx2), obs)
+    if dd:
+        vio.append({"key": "%s|%s|%s|reloaded model diverges when used further (%s)" % (dname, sig, hist, dd[0]), "case": {"kind": "dist", "subject": dname, "cfg": cfg, "hist": hist, "seed": seed},
+                    "msg": "%s cfg=%s history=%s: the reloaded instance agreed in evaluation mode, but %s differs from the saved model's: %s" % (dname, cfg, hist, dd[0], dd[1])})
     return vio, before
 
 
